@@ -22,13 +22,16 @@ RULE = (
     "conditionals, math functions, variables; a two-sided stratum with restrictions) and mappings of 1-3 of their "
     "coefficients / constants / arguments / the spatial coordinate to another terminal or to a generated expression of "
     "the same shape (images may mention mapped terminals, incl. swaps); also applied to forms; plus shape-changing "
-    "mappings (must raise) and mappings of terminals that do not occur (result must equal the input). non-trivial = a "
+    "mappings (must raise) and mappings of terminals that do not occur (result must equal the input); in two thirds of the "
+    "cell cases the recipe is built a second time with one mapped coefficient exchanged for an ExternalOperator / "
+    "Interpolate N in its space and the key for N (image as drawn, or zero): N must not survive and the value must be "
+    "that of e with the coefficient substituted. non-trivial = a "
     "mapped terminal occurs in e and the substituted value differs from the unsubstituted one; distinct = distinct "
     "(recipe, mapping)."
 )
 ASSUMPTIONS = ["reference interpreter; the image of a terminal under a derivative is differentiated by jets"]
 BUDGET = {"quick": {"examples": 4000, "seconds": 70}, "thorough": {"examples": 120000, "seconds": 1500}}
-LABEL_FLOORS = {"quick": {"hit": 1200, "shape-change": 100, "untouched": 100, "under-derivative": 200}}
+LABEL_FLOORS = {"quick": {"hit": 1200, "shape-change": 100, "untouched": 100, "under-derivative": 200, "bfo-checked": 300}}
 
 OPS = {"arith", "math", "cond", "index", "tensor", "compound", "deriv", "pow", "abs", "var", "sign", "math2"}
 CELL = Profile(ops=OPS, leaves={"coef", "const", "lit", "x", "geo", "zero", "eye", "arg"}, max_rank=2, elements="all",
@@ -101,7 +104,9 @@ def cases(draw, tier):
         wrong = draw(st.sampled_from([s for s in [(), (g,), (g, g), (g + 1,)] if s != ksh]))
         mapping[0][1] = G.expr(wrong, (), 1)
     return {"world": world, "expr": e, "vars": G.vars, "mapping": mapping, "kind": kind, "interior": interior,
-            "as_form": draw(st.integers(0, 4)) == 0 and sh == () and not interior, "env_seed": draw(st.integers(0, 10**6))}
+            "as_form": draw(st.integers(0, 4)) == 0 and sh == () and not interior, "env_seed": draw(st.integers(0, 10**6)),
+            "bfo": draw(st.sampled_from(["", "extop", "interp"])),
+            "bfo_zero": draw(st.integers(0, 2)) == 0}
 
 
 def strategy(tier):
@@ -184,4 +189,70 @@ def check_case(case):
         differs |= not close(plain, exp, rtol=1e-9, atol=1e-12)
     if any(under_derivative(case["expr"], k) for k, _ in case["mapping"]):
         labels.append("under-derivative")
+    if case.get("bfo") and not case.get("as_form") and not case["interior"]:
+        labels += check_base_form_operator(case, b, e, mapping)
     return {"nontrivial": differs, "labels": labels + ["hit"]}
+
+
+def check_base_form_operator(case, b, e, mapping):
+    """The same recipe with one mapped coefficient p exchanged for an ExternalOperator / Interpolate N in p's space,
+    and the mapping {N: image of p (or zero), others unchanged}: replace documents both as admissible keys.  N is
+    opaque, so the result must not mention N and must have the value of e with p := image."""
+    import ufl
+    from ufl.algorithms.replace import replace
+    from ufl.core.external_operator import ExternalOperator
+    from ufl.core.interpolate import Interpolate
+    from ufl.corealg.traversal import unique_pre_traversal
+
+    name = next((k for k, _ in case["mapping"] if case["world"]["fields"].get(k, {}).get("kind") == "coef"), None)
+    if name is None:
+        return []
+    orig = b.fields[name]
+    V = orig.ufl_function_space()
+    try:
+        if case["bfo"] == "extop":
+            N = ExternalOperator(orig, function_space=V)
+        else:
+            N = Interpolate(orig, ufl.Argument(V.dual(), 0))
+        if tuple(N.ufl_shape) != tuple(orig.ufl_shape):
+            return ["bfo-shape-differs"]
+        b.fields[name] = N
+        b.vars = {}
+        try:
+            eN = ufl.as_ufl(b.build(case["expr"]))
+        finally:
+            b.fields[name] = orig
+            b.vars = {}
+    except RecursionError:
+        raise
+    except Exception:
+        return ["bfo-build-failed"]
+    if not any(n is N or n == N for n in unique_pre_traversal(eN)):
+        return ["bfo-absent"]
+    image = mapping[orig]
+    if case.get("bfo_zero"):
+        image = ufl.zero(*orig.ufl_shape) if orig.ufl_shape else ufl.as_ufl(0)
+    mN = {(N if k is orig else k): (image if k is orig else v) for k, v in mapping.items()}
+    try:
+        outN = replace(eN, mN)
+    except RecursionError:
+        raise
+    except Exception as ex:
+        return ["bfo-raised:" + type(ex).__name__]
+    if any(isinstance(n, (ExternalOperator, Interpolate)) for n in unique_pre_traversal(outN)):
+        raise Violation(f"replace(e, {{N: {str(image)[:40]}}}) with N an {type(N).__name__} leaves N in the result: {str(outN)[:150]}",
+                        {"kind": "base-form-operator-survives"})
+    order = max(derivative_depth(eN) + max([derivative_depth(v) for v in mN.values()] + [0]), derivative_depth(outN))
+    if order > 4:
+        return ["bfo-order"]
+    envs = make_env(case, 0, facet=True)
+    I = Interp(envs, order=order)
+    I.subst_simultaneous = True
+    for k, v in mapping.items():
+        I.subst[repr(k)] = image if k is orig else v
+    exp = Guard(I).value(e)
+    got = eval_output(Guard(Interp(envs, order=order)), outN)
+    if not close(exp, got, rtol=1e-7, atol=1e-9):
+        raise Violation(f"value of replace(e, m) with an {type(N).__name__} key {np.ravel(got)[:3]} differs from e with substituted "
+                        f"terminals {np.ravel(exp)[:3]} (rel err {rel_err(exp, got):.3g})", {"kind": "base-form-operator-value"})
+    return ["bfo-checked", "bfo-checked:" + case["bfo"] + (":zero" if case.get("bfo_zero") else "")]
